@@ -89,3 +89,197 @@ Theorem C16_evm_cost_checked : forall g rest senders pre t post s s' gas,
     (forall a, a ∉ InvEvmClosed.eff_addr <$> e_accts e -> bal_of (work s') a = bal_of (work s) a).
 Proof. exact InvEvmClosed.C16_evm_cost_checked. Qed.
 Print Assumptions C16_evm_cost_checked.
+
+(* ================================================================== whole runs, hypotheses on the inputs only
+   (InvFeeClosed.v): which price a transaction is checked against (the one handed over at the last
+   Commit), what every successful and every failed delivery of a run does to balances and to the block's
+   fee sum, what EndBlock credits to the proposer, and the whole-run ledger of fees: paid = credited to
+   proposers + burned in proposer-less blocks + still open *)
+From Rigo Require Import InvPanic InvSupply InvReach InvClosed InvUnbond InvFeeClosed.
+(* C16, price: every successful delivery of every run -- no hypothesis on the run -- was accepted at
+   the gas price of the parameter set in force in the state it was delivered in, with gas x price at
+   least the minimum fee (and gas covering the intrinsic gas, for contract transactions); that set is
+   [in_force] of the prefix: the genesis set if the prefix has no Commit, otherwise what the last
+   Commit of the prefix handed over, and nothing after that Commit changed it.  In particular the
+   price is constant between two Commits, hence within a block. *)
+Theorem C16_run_price_in_force : forall g ops pre t post s' gas,
+  ops = pre ++ SDeliver t :: post →
+  let s := srun (init_chain g) pre in
+  deliver s t = (s', Ok gas) →
+  t_price t = g_gasPrice (gparams s) ∧
+  mul256 (g_minTrxGas (gparams s)) (g_gasPrice (gparams s)) ≤ fee_of t ∧
+  (t_type t = TRX_CONTRACT → intrinsic_of t ≤ t_gas t) ∧
+  gparams s = in_force (init_chain g) (gen_params g) pre ∧
+  (no_commit pre → gparams s = gen_params g) ∧
+  (∀ pre0 mid, pre = pre0 ++ mid → no_commit mid → gparams s = gparams (srun (init_chain g) pre0)) ∧
+  (∀ pre0 mid, pre = pre0 ++ SCommit :: mid → no_commit mid →
+     let sc := srun (init_chain g) pre0 in gparams s = default (gparams sc) (newparams sc)).
+Proof. exact InvFeeClosed.C16_run_price_in_force. Qed.
+Print Assumptions C16_run_price_in_force.
+
+(* C16 "across governance changes": the parameter set in force (hence the gas price and the minimum
+   gas) changes at a Commit and nowhere else, and what the Commit switches in is the set an EndBlock
+   of the run computed from a passed parameter proposal whose applying height had been reached *)
+Theorem C16_run_price_hand_over : forall g pre o,
+  let s := srun (init_chain g) pre in
+  gparams (sstep s o) ≠ gparams s →
+  o = SCommit ∧ newparams s = Some (gparams (sstep s o)) ∧
+  ∃ pre0 mid, pre = pre0 ++ SEnd :: mid ∧ no_commit mid ∧
+    let se := srun (init_chain g) pre0 in
+    ∃ k p w newp,
+      fprops (base_of se) !! k = Some p ∧ p_apply p ≤ b_height (bctx se) ∧
+      p_opttype p = PROPOSAL_GOVPARAMS ∧ p_major p = Some w ∧ o_params w = Some newp ∧
+      gparams (sstep s o) = merge_params (gparams se) newp.
+Proof. exact InvFeeClosed.C16_run_price_hand_over. Qed.
+Print Assumptions C16_run_price_hand_over.
+
+(* with well-formed genesis parameters and parameter documents that keep parameters well formed
+   ([opts_ok], input-only: the submission check enforces no range, InvReach.params_ok_needs_opts_ok),
+   the two fee bounds are products over Z *)
+Theorem C16_run_admission_exact : forall g ops pre t post s' gas,
+  params_ok (gen_params g) → opts_ok ops → 0 ≤ t_gas t < two64 →
+  ops = pre ++ SDeliver t :: post →
+  let s := srun (init_chain g) pre in
+  deliver s t = (s', Ok gas) →
+  params_ok (gparams s) ∧
+  t_price t = g_gasPrice (gparams s) ∧
+  g_minTrxGas (gparams s) * g_gasPrice (gparams s) ≤ t_gas t * t_price t ∧
+  (t_type t = TRX_CONTRACT → intrinsic_of t ≤ t_gas t).
+Proof. exact InvFeeClosed.C16_run_admission_exact. Qed.
+Print Assumptions C16_run_admission_exact.
+
+(* C16, a block of a well-bracketed run -- any transactions, EVM path included, no hypothesis on
+   states: the block context at EndBlock carries the header's height and proposer, every delivery
+   of the block was priced at the ONE gas price in force when the block began, and the fee sum
+   EndBlock will pay is the sum of gas x price over the successful deliveries, modulo 2^256.
+   [fees_of_block] lists that block right after the blocks of the prefix. *)
+Theorem C16_run_block_fee_sum_mod : forall g ops pre hd txs post,
+  InvPanic.bracketed InvPanic.Idle 0 ops →
+  ops = pre ++ SBegin hd :: map SDeliver txs ++ SEnd :: post →
+  let s0 := srun (init_chain g) pre in
+  let s1 := (begin_block s0 hd).1 in
+  let s2 := srun s1 (map SDeliver txs) in
+  s2 = srun (init_chain g) (pre ++ SBegin hd :: map SDeliver txs) ∧
+  b_height (bctx s2) = h_height hd ∧ b_proposer (bctx s2) = h_proposer hd ∧ gparams s2 = gparams s0 ∧
+  fees_of_txs s1 txs = concat (zip_with (fee_at (g_gasPrice (gparams s0))) txs (deliver_all s1 txs).2) ∧
+  b_feesum (bctx s2) = wrap256 (fee_total (fees_of_txs s1 txs)) ∧
+  fees_of_block g ops =
+    fees_of_block g pre ++
+    {| fb_height := h_height hd; fb_proposer := h_proposer hd; fb_fees := fees_of_txs s1 txs |}
+      :: fees_from (end_block s2).1 [] post.
+Proof. exact InvFeeClosed.C16_run_block_fee_sum_mod. Qed.
+Print Assumptions C16_run_block_fee_sum_mod.
+
+(* C16 for one successful delivery of a run *)
+Theorem C16_run_sender_charge : forall g ops pre t post s' gas,
+  genesis_ok g → InvPanic.bracketed InvPanic.Idle 0 ops → hashes_fresh ops → txs_ok ops →
+  supply (work (init_chain g)) + requested ops < supply_bound →
+  ops = pre ++ SDeliver t :: post →
+  let s := srun (init_chain g) pre in
+  deliver s t = (s', Ok gas) →
+  let fee := t_gas t * g_gasPrice (gparams s) in
+  native s t ∧ gas = t_gas t ∧ t_price t = g_gasPrice (gparams s) ∧
+  fee1 s t = [(t_from t, fee)] ∧ fee_of t = fee ∧ 0 ≤ fee ∧
+  fee + t_amount t ≤ bal_of (work s) (t_from t) ∧
+  b_feesum (bctx s') = b_feesum (bctx s) + fee ∧
+  (∀ a, bal_of (work s') a =
+        bal_of (work s) a + tx_in t a - (if decide (a = t_from t) then fee + tx_out t else 0)).
+Proof. exact InvFeeClosed.C16_run_sender_charge. Qed.
+Print Assumptions C16_run_sender_charge.
+
+(* a delivery of the run that does not succeed (Err or Panic) charges nothing *)
+Theorem C16_run_failed_no_charge : forall g ops pre t post s' r,
+  genesis_ok g → InvPanic.bracketed InvPanic.Idle 0 ops → hashes_fresh ops → txs_ok ops →
+  supply (work (init_chain g)) + requested ops < supply_bound →
+  ops = pre ++ SDeliver t :: post →
+  let s := srun (init_chain g) pre in
+  deliver s t = (s', r) → (∀ gas, r ≠ Ok gas) →
+  fee1 s t = [] ∧ b_feesum (bctx s') = b_feesum (bctx s) ∧ (∀ a, bal_of (work s') a = bal_of (work s) a).
+Proof. exact InvFeeClosed.C16_run_failed_no_charge. Qed.
+Print Assumptions C16_run_failed_no_charge.
+
+(* C16 for one complete block of a run *)
+Theorem C16_run_block_credit : forall g ops pre hd txs post,
+  genesis_ok g → InvPanic.bracketed InvPanic.Idle 0 ops → hashes_fresh ops → txs_ok ops →
+  supply (work (init_chain g)) + requested ops < supply_bound →
+  ops = pre ++ SBegin hd :: map SDeliver txs ++ SEnd :: post →
+  let s0 := srun (init_chain g) pre in
+  let s1 := (begin_block s0 hd).1 in
+  let s2 := srun s1 (map SDeliver txs) in
+  let s3 := (end_block s2).1 in
+  let fees := fees_of_txs s1 txs in
+  let refunds a := sumZ (payout_amount <$> owned_by a (payouts1 s2 SEnd)) in
+  fees = concat (zip_with (fee_native (g_gasPrice (gparams s0))) txs (deliver_all s1 txs).2) ∧
+  Forall (λ x : addr * Z, 0 ≤ x.2) fees ∧
+  b_feesum (bctx s2) = fee_total fees ∧ 0 ≤ fee_total fees < supply_bound ∧
+  b_proposer (bctx s2) = h_proposer hd ∧ b_height (bctx s2) = h_height hd ∧
+  (∃ ups, end_block s2 = (s3, Ok ups)) ∧
+  (∀ a, bal_of (work s3) a =
+        bal_of (work s2) a + (if decide (h_proposer hd = Some a) then fee_total fees else 0) + refunds a) ∧
+  (∀ pa, h_proposer hd = Some pa → bal_of (work s3) pa = bal_of (work s2) pa + fee_total fees + refunds pa) ∧
+  (h_proposer hd = None → ∀ a, bal_of (work s3) a = bal_of (work s2) a + refunds a).
+Proof. exact InvFeeClosed.C16_run_block_credit. Qed.
+Print Assumptions C16_run_block_credit.
+
+(* C16 over the whole run: fees are moved, never created.
+   - per account, what the fee steps of the EndBlocks credit is the sum of the fee totals of the
+     blocks that account proposed;
+   - the credits of the run add up to the fees of the blocks that had a proposer;
+   - every fee a sender was charged ([fees_flat]) is in exactly one block, so:
+       charged = credited to proposers + fees of proposer-less blocks (paid to nobody: burned)
+                 + fees of the block still open;
+   - all of these are non-negative. *)
+Theorem C16_run_total_fees : forall g ops,
+  genesis_ok g → InvPanic.bracketed InvPanic.Idle 0 ops → hashes_fresh ops → txs_ok ops →
+  supply (work (init_chain g)) + requested ops < supply_bound →
+  let s0 := init_chain g in
+  (∀ a, fee_gain a s0 ops = credited_to a (fees_of_block g ops)) ∧
+  credit_total (credits s0 ops) = fees_with_proposer (fees_of_block g ops) ∧
+  fee_total (fees_flat s0 ops) =
+    credit_total (credits s0 ops) + fees_without_proposer (fees_of_block g ops) + fee_total (open_fees s0 [] ops) ∧
+  Forall (λ x : addr * Z, 0 ≤ x.2) (fees_flat s0 ops).
+Proof. exact InvFeeClosed.C16_run_total_fees. Qed.
+Print Assumptions C16_run_total_fees.
+
+(* C16 and C12 together, per account, over the whole run: the balance at the end is the genesis
+   balance, plus what the transactions moved in and out, minus the fees the account was charged as a
+   sender, plus the fees of the blocks it proposed, plus its unbonding refunds (characterised by
+   InvUnbond.C12_history).  Over Z. *)
+Theorem C16_run_account_ledger : forall g ops a,
+  genesis_ok g → InvPanic.bracketed InvPanic.Idle 0 ops → hashes_fresh ops → txs_ok ops →
+  supply (work (init_chain g)) + requested ops < supply_bound →
+  let s0 := init_chain g in
+  bal_of (work (srun s0 ops)) a =
+    bal_of (work s0) a + moved a s0 ops - charged_to a (fees_flat s0 ops)
+    + credited_to a (fees_of_block g ops) + unbond_gain a s0 ops.
+Proof. exact InvFeeClosed.C16_run_account_ledger. Qed.
+Print Assumptions C16_run_account_ledger.
+
+Theorem C16_run_evm_charge_checked : forall g rest senders pre t post s' gas,
+  InvEvmClosed.no_init rest →
+  EffectCheck.effects_hold senders AppRun.state0 (AppRun.AInit g :: rest) →
+  InvEvmClosed.sops_of rest = pre ++ SDeliver t :: post →
+  let s := srun (init_chain g) pre in
+  deliver s t = (s', Ok gas) → ¬ native s t →
+  ∃ e burn,
+    t_evm t = Some e ∧ e_ok e = true ∧ gas = e_gas e ∧ 0 ≤ gas ≤ t_gas t ∧
+    t_price t = g_gasPrice (gparams s) ∧
+    fee1 s t = [(t_from t, gas * g_gasPrice (gparams s))] ∧
+    b_feesum (bctx s') = add256 (b_feesum (bctx s)) (mul256 gas (g_gasPrice (gparams s))) ∧
+    0 ≤ burn ∧ NoDup (InvEvmClosed.eff_addr <$> e_accts e) ∧
+    sumZ_with (λ a, bal_of (work s) a - bal_of (work s') a) (InvEvmClosed.eff_addr <$> e_accts e)
+      = gas * g_gasPrice (gparams s) + burn ∧
+    (∀ a, a ∉ InvEvmClosed.eff_addr <$> e_accts e → bal_of (work s') a = bal_of (work s) a).
+Proof. exact InvFeeClosed.C16_run_evm_charge_checked. Qed.
+Print Assumptions C16_run_evm_charge_checked.
+
+Theorem C16_total_fees_needs_bracketed : 
+ ∃ g ops,
+  genesis_ok g ∧ hashes_fresh ops ∧ txs_ok ops ∧
+  supply (work (init_chain g)) + requested ops < supply_bound ∧
+  ¬ InvPanic.bracketed InvPanic.Idle 0 ops ∧
+  fees_flat (init_chain g) ops = [(2%N, 1000)] ∧
+  credits (init_chain g) ops = [(1, 2%N, 1000); (1, 2%N, 1000)] ∧
+  credit_total (credits (init_chain g) ops) ≠ fees_with_proposer (fees_of_block g ops).
+Proof. exact InvFeeClosed.C16_total_fees_needs_bracketed. Qed.
+Print Assumptions C16_total_fees_needs_bracketed.
